@@ -636,7 +636,8 @@ impl PartialEq<Self> for XType {
             (Self::Float, Self::Float) => true,
             (Self::String, Self::String) => true,
             (Self::Compound(k0, ref a, ref a_b), Self::Compound(k1, ref b, ref b_b)) => {
-                k0 == k1 && a.name == b.name && a_b == b_b
+                // the same name declared in another scope is another compound
+                k0 == k1 && a == b && a_b == b_b
             }
             (Self::XCallable(ref a), Self::XCallable(ref b)) => a.eq(b),
             (Self::XFunc(ref a), Self::XFunc(ref b)) => {
